@@ -1477,11 +1477,11 @@ pub fn run(ctx: &mut Ctx, args: &Args) {
             }
         }
         let n_random = if k <= exhaustive_max_chars(thorough) {
-            ctx.tier.pick(100, 1000)
+            ctx.tier.pick(100, 2500)
         } else if big {
-            ctx.tier.pick(200, 3200)
+            ctx.tier.pick(200, 8000)
         } else {
-            ctx.tier.pick(700, 12000)
+            ctx.tier.pick(700, 30000)
         };
         for _ in 0..n_random {
             let r = random_request(view, &mut rng_font);
